@@ -23,18 +23,18 @@ ASSUMPTIONS = [
     'Rp+dz0/2+z_j+dz_j/2; new: shells at layer boundaries, tangent at mid-layer); a re-discretisation must update them',
     'the oracle takes each contribution\'s prepared per-layer sigma as input (its correctness is C03/C04/C19)',
 ]
-_Q = {'abs': 150, 'mono': 30, 'big': 4}
-_T = {'abs': 3000, 'mono': 700, 'big': 60}
+_Q = {'abs': 120, 'mono': 25, 'big': 4, 'rerun': 60}
+_T = {'abs': 2500, 'mono': 600, 'big': 60, 'rerun': 1200}
 BUDGET = {
     'quick': [dict(name='boundscheck', env={'NUMBA_BOUNDSCHECK': '1'}, shards=4, cases=_Q)],
     'thorough': [dict(name='boundscheck', env={'NUMBA_BOUNDSCHECK': '1'}, shards=16, cases=_T),
-                 dict(name='nojit', env={'NUMBA_DISABLE_JIT': '1'}, shards=4, cases={'abs': 150, 'mono': 30})],
+                 dict(name='nojit', env={'NUMBA_DISABLE_JIT': '1'}, shards=4, cases={'abs': 150, 'mono': 30, 'rerun': 60})],
 }
 REQUIRED = dict(monitors=['chords', 'exp(-tau)', 'depth', 'depth>=bare', 'depth<=opaque', 'transparent==bare',
                           'scaling-monotone', 'early-exit-licensed', 'chords-sum-to-full-chord'],
                 classes=['method:new', 'method:old', 'magnitude:transparent', 'magnitude:saturating',
                          'early-exit-observed', 'contrib:CIA', 'contrib:Rayleigh', 'contrib:SimpleClouds',
-                         'contrib:FlatMie', 'contrib:LeeMie', 'nlayers:2'])
+                         'contrib:FlatMie', 'contrib:LeeMie', 'nlayers:2', 'rerun:evaluated-after-change'])
 TOL = 1e-10
 CUT = float(np.exp(-10.0))
 
@@ -333,7 +333,69 @@ def wl_mono(ctx, rng):
     ctx.sig('mono', spec['nlayers'], spec['new_method'], spec['magnitude'], round(spec['planet_radius'], 6))
 
 
-WORKLOADS = {'abs': wl_abs, 'mono': wl_mono, 'big': wl_big}
+def perturb_model(rng, model, max_changes=3):
+    """Change a few fitting parameters of a built model through the public model[name] = value route, the way a
+    retrieval does between two evaluations.  Returns the list of (name, old, new)."""
+    names = [n for n, t in model.fittingParameters.items()
+             if isinstance(t[2](), float) and n not in ('nlayers', 'planet_distance', 'planet_sma')]
+    out = []
+    for n in rng.choice(names, min(len(names), int(rng.integers(1, max_changes + 1))), replace=False):
+        n = str(n)
+        old = model[n]
+        if n in ('atm_min_pressure', 'atm_max_pressure'):
+            new = old * float(10 ** rng.uniform(-0.5, 0.5))
+        elif n.startswith('T') or n in ('T_irr', 'T_int'):
+            new = float(np.clip(old * rng.uniform(0.6, 1.5), 120.0, 3200.0))
+        elif n in ('planet_mass', 'planet_radius'):
+            new = old * float(rng.uniform(0.9, 1.2))
+        elif 0 < old < 1:
+            new = float(min(old * 10 ** rng.uniform(-1, 0.5), 0.15))      # mixing ratios, ratios, alpha, kappas
+        else:
+            new = old * float(10 ** rng.uniform(-0.3, 0.3))
+        model[n] = new
+        out.append((n, old, new))
+    return out
+
+
+def wl_rerun(ctx, rng):
+    """The same model object evaluated repeatedly with changed parameters (what a retrieval does): every
+    evaluation must satisfy the integral for the atmosphere it has at that moment -- no state may survive."""
+    from taurex.exceptions import InvalidModelException
+    spec = make_case(rng, nwn=int(rng.integers(3, 15)))
+    observe_case(ctx, spec)
+    ctx.observe('rerun')
+    model = realise(spec)
+    snap = run_model(ctx, model)
+    if snap is None:
+        return
+    oracle(ctx, snap, spec)
+    changes_all = []
+    for k in range(int(rng.integers(1, 4))):
+        changes = perturb_model(rng, model)
+        changes_all.append([(n, float(a), float(b)) for n, a, b in changes])
+        ctx.feature(summary=world.spec_summary(spec), new_method=spec['new_method'], changes=changes_all)
+        _state['snap'] = None
+        try:
+            wn, depth, trans, _ = model.model()
+        except InvalidModelException as e:
+            ctx.license(type(e).__name__)     # a perturbed atmosphere may legitimately be rejected
+            return
+        s2 = _state['snap']
+        _state['snap'] = None
+        if not np.all(np.isfinite(s2['zb'])) or s2['zb'][-1] > 2.0 * s2['Rp']:
+            ctx.event('domain-skip:perturbed-atmosphere-unbound')
+            return
+        s2['wn'] = np.array(wn)
+        s2['depth'] = np.array(depth, dtype=float)
+        s2['ret_trans'] = np.array(trans, dtype=float)
+        ctx.observe('rerun:evaluated-after-change')
+        oracle(ctx, s2, spec)
+    ctx.sig('rerun', spec['nlayers'], spec['new_method'], spec['magnitude'], tuple(n for ch in changes_all for n, _, _ in ch),
+            round(spec['planet_mass'], 6))
+    ctx.sample({'workload': 'rerun', 'world': world.spec_summary(spec), 'changes': changes_all})
+
+
+WORKLOADS = {'abs': wl_abs, 'mono': wl_mono, 'big': wl_big, 'rerun': wl_rerun}
 
 LEVEL_TEXT = ('Exploration by runtime monitoring: every TransmissionModel.path_integral call made by the workload is '
               'tapped (geometry, density, each contribution\'s prepared sigma before; depth, exp(-tau), chord lengths '
